@@ -31,6 +31,18 @@ claimed = {
    text="Fault enumeration over a recorded pilot run: for each seeded workload (one real client of any kind/mode, handshake + 1-3 concurrent callers with 10 B-70 KB answers) a fault-free pilot records every I/O point (request sent, each server write/flush, each client read incl. EOF, each pipe read/write); the identical run is then repeated with exactly one fault armed at each point - connection reset, cut (unexpected EOF), caller cancellation, network stall until the caller's deadline, kill -9 of the stdio child (quick: <=40 (point,kind) pairs per pilot by stride; thorough: all). Oracle: every call pending at the fault returns; an error comes at the very simulated instant of the fault (at the deadline for a stall); a success carries the complete own answer; after Close and a 25-minute drain no library goroutine except the per-server sweeper is alive, no pending-request entry remains, every response body handed to the library was closed or read to its end, no server handler / stream registration / legacy session outlives its peer.",
    note="Fault positions are message/call boundaries of the simulated transport (byte offsets inside one write are not enumerated; short reads are sampled). Goroutines are tracked through the instrumented go statements, fds and child pids through the simulator's connection/pipe records.",
    tech=TECH+"fault enumeration at every recorded I/O point of a pilot run, promptness and resource-release oracle"),
+ "C12": dict(cat="exploration", ref="DESIGN.md §6 C12",
+   text="Seeded search over interleavings of 2-5 tasks performing register (unique version per write) / unregister / list / call-read-get on three names per registry (tools, prompts, resources), through the server API and a real client over json, post-sse, stateless, legacy SSE or stdio. The history of invoke/return events stamped with the run's global event sequence (<= ~26 operations) is checked with porcupine v1.3.0 against a sequential model per registry (map name->version, resources with registration order; list = snapshot, call = version or not-found, unregister = error iff nothing removed); Unknown is counted, never reported. In-run invariants: no duplicate or torn list entry, no call failing with anything but not-found, no task blocked on a registry lock at the end.",
+   note="Between two yield points code is atomic in the simulator, so a missing lock is invisible here (it is C20's race-mode business); this check decides logical atomicity (two-step updates, stale order slices, handler replacement).",
+   tech=TECH+"linearizability of the recorded history against a sequential registry model (porcupine)"),
+ "C13": dict(cat="exploration", ref="DESIGN.md §6 C13",
+   text="Seeded search over 2-4 concurrent real clients with distinct X-Token headers against Streamable (post-sse, json, stateless) and legacy SSE servers configured with 1-3 HTTP context functions, a middleware, tool/prompt/resource list filters and an echoing handler, every one of which yields to the scheduler so that requests of different clients interleave inside them. Oracle: tokens seen by handler, middleware (before and after) and filters equal the requesting client's token, context functions ran in registration order, the handler sees its own session, server handle and notification sender, an entry hidden by a filter never appears in another token's list while its owner sees it.",
+   note="Tokens travel as static client headers; the check is about what user code observes in its context, not about HTTP-level isolation.",
+   tech=TECH+"per-request echo oracle"),
+ "C15": dict(cat="exploration", ref="DESIGN.md §6 C15",
+   text="All 781 middleware chains of length 0-4 over {pass, modify-request, modify-result, short-circuit, fail} are enumerated from the run index (quick covers each at least twice); option form (one WithMiddleware call or repeated), server kind (Streamable post-sse/json/stateless-json, legacy SSE), 1-3 concurrent tools/call requests and a concurrent notification are drawn from the tape, and schedules are sampled. A reference interpreter of the statement predicts the per-request trace (m1-before..handler..m1-after) and the client-visible outcome (handler result with request/result modifications, short-circuit value, or JSON-RPC -32603 with the middleware's message); the instrumented middlewares' traces and what the real client returns must equal it; notifications must bypass the chain; the session seen is the request's own.",
+   note="Chains longer than 4 and behaviours outside the five are not covered.",
+   tech=TECH+"chain enumeration with a reference interpreter of the onion rule"),
 }
 NA = {
  "C18": "pure relation between two translators (schema generator vs encoding/json) over types and values: no schedule, clock, fault or interleaving for a simulator to decide (DESIGN.md §7)",
